@@ -14,6 +14,7 @@ EXPLANATION = (
     "REPLAY-ORDER — the file-name scheme (format templates of the active and rotated logs) agrees with the sort used for "
     "replay, and the newest snapshot is tried first; (6) COUNTER — writers of the transaction counter are +1 in the APIs and "
     "raise-only (or pre-replay) in recovery."
+    ' (7) REPLAY-TOTAL — every record shape a mutating API logs (type x value presence) is understood by replay, and from the true edge of the MAC check every path to the next record changes the state map or counts a failure (no verified record is filtered away).'
 )
 NOT_DECIDED = "torn writes, byte truncation of the last record, rotation collisions within one second, every concrete crash point"
 ASSUMPTIONS = ["std::fs::rename is atomic on the target file system", "File::write_all hands bytes to the OS before returning"]
